@@ -9,6 +9,7 @@ import (
 
 	"verif/internal/core"
 	"verif/internal/crash"
+	"verif/internal/legacy"
 	"verif/internal/muxdiff"
 	"verif/internal/pattern"
 	"verif/internal/qevent"
@@ -37,6 +38,7 @@ var checks = map[string]func(*core.Ctx){
 	"C15": qevent.Run,
 	"C16": racer.Run,
 	"C17": pattern.Run,
+	"C20": legacy.Run,
 }
 
 func main() {
